@@ -44,7 +44,8 @@ theorem R_seek_cases (F : Rac.File) (r : R) (off wh limit p : Int)
       (r.seek F off wh limit).1.err = r.err ∧
       (r.seek F off wh limit).1.phase = .A ∧ (r.seek F off wh limit).1.pos = p.toNat ∧
       (r.seek F off wh limit).1.dlo = p.toNat ∧ (r.seek F off wh limit).1.dhi = p.toNat ∧
-      (r.seek F off wh limit).1.closed = r.closed ∧ (r.seek F off wh limit).1.conc = r.conc) ∨
+      (r.seek F off wh limit).1.closed = r.closed ∧ (r.seek F off wh limit).1.conc = r.conc ∧
+      (r.seek F off wh limit).1.crPos = p.toNat) ∨
     (p = (r.pos : Int) ∧ (r.seek F off wh limit).2.2 = none ∧
       (r.seek F off wh limit).1 =
         { r with posLimit := (if limit > (F.size : Int) then (F.size : Int) else limit).toNat }) := by
@@ -63,7 +64,7 @@ theorem R_seek_cases (F : Rac.File) (r : R) (off wh limit p : Int)
       rw [if_neg hc, if_pos hne]
       exact ⟨by first | rfl | trivial, by first | rfl | trivial, by first | rfl | trivial,
         by first | rfl | trivial, by first | rfl | trivial, by first | rfl | trivial,
-        by first | rfl | trivial, by first | rfl | trivial⟩
+        by first | rfl | trivial, by first | rfl | trivial, by first | rfl | trivial⟩
   · right; right
     have hp : p = (r.pos : Int) := by omega
     have hc : ¬ (p ≠ (r.pos : Int) ∧ p < 0) := by omega
@@ -131,7 +132,7 @@ theorem seek_inv {k : Codec} {o : ChunkReader.Reader} (s : S) (off wh limit : In
         simp only at hnone hcr hsp
         subst hnone
         simp only
-        rcases hcases with ⟨_, hneg, _⟩ | ⟨_, _, _, a1, a2, a3, a4, a5, a6, a7⟩ | ⟨heq, _⟩
+        rcases hcases with ⟨_, hneg, _⟩ | ⟨_, _, _, a1, a2, a3, a4, a5, a6, a7, _⟩ | ⟨heq, _⟩
         · omega
         · refine ⟨hg, ?_, ?_, (by first | rfl | trivial), hout, ?_⟩
           · intro _
